@@ -277,7 +277,13 @@ func addrImmConst(t immType, i instruction, w expr.Width) expr.Const {
 	if !ok {
 		panic(fmt.Sprintf("immediate encoding %d has no value", t))
 	}
-	return expr.NewConstUint(addrAddImm(i.addr, imm), w)
+	return addrConst(addrAddImm(i.addr, imm), w)
+}
+
+// addrConst creates a constant of width w out of address a. As the address
+// space of width w is circular, the address is truncated to w bytes.
+func addrConst(a model.Addr, w expr.Width) expr.Const {
+	return expr.ConstFromUint(uint64(a)).WithWidth(w)
 }
 
 func branchCmp(
@@ -287,7 +293,7 @@ func branchCmp(
 	w expr.Width,
 ) expr.Effect {
 	jumpTarget := addrImmConst(immTypeB, i, w)
-	nextInstr := expr.NewConstUint(i.addr+instructionLen, w)
+	nextInstr := addrConst(i.addr+instructionLen, w)
 
 	condTrue, condFalse := jumpTarget, nextInstr
 	if !branchIfTrue {
